@@ -91,6 +91,80 @@ def snapshot(mc):
     return [{"name": n, "e": {"interval": int(st.interval), "weight": int(st.probability), "min": int(st.minimum_count)}} for n, st in mc.moves.items()]
 
 
+def default_table_layer(rep, tier):
+    """DefaultTable.tla -> code: the table each driver builds from the default moves it is given (names, order, weights as
+    exact rationals, interval, forced slots, trials per step), for every driver x N x which defaults are given."""
+    from fractions import Fraction
+
+    from calcs import Harmonic
+    from quansino.mc.canonical import Canonical
+    from quansino.mc.gcmc import GrandCanonical
+    from quansino.mc.isobaric import Isobaric
+    from quansino.mc.isotension import Isotension
+    from quansino.moves.cell import CellMove
+    from quansino.moves.displacement import DisplacementMove
+    from quansino.moves.exchange import ExchangeMove
+    from quansino.operations.cell import IsotropicDeformation
+    from quansino.operations.displacement import Ball, Translation
+
+    r = run_tlc("DefaultTable", "MC_DefaultTable.cfg", workers=1, env={"DEFTAB_N": "12"} if tier == "thorough" else {}, timeout=600)
+    if not r.ok:
+        if r.invariant_violated:
+            rep.violation(f"model:default-table:{r.invariant_violated[0]}", "TLC: DefaultTable.tla violated", {"tlc": r.out[-2000:]})
+        else:
+            rep.error(f"TLC failed on DefaultTable: {r.out[-1200:]}")
+        return 0, 0
+    classes = {"Canonical": Canonical, "Isobaric": Isobaric, "Isotension": Isotension, "GrandCanonical": GrandCanonical}
+    n = 0
+    for line in r.out.splitlines():
+        line = line.strip()
+        if not line.startswith('"@@'):
+            continue
+        case = json.loads(json.loads(line)[2:])
+        n += 1
+        N = case["n"]
+        a = Atoms("Cu" * N, positions=[[1.7 * i, 0.3 * (i % 2), 0.0] for i in range(N)], cell=[1.7 * N + 3, 6, 6], pbc=True)
+        a.calc = Harmonic()
+        kw = {"seed": 11 + n, "temperature": 300.0}
+        if case["cycles_given"]:
+            kw["max_cycles"] = case["cycles_given"]
+        if case["disp"]:
+            kw["default_displacement_move"] = DisplacementMove(np.arange(N), Ball(0.1))
+        if case["second"]:
+            if case["driver"] == "GrandCanonical":
+                kw["default_exchange_move"] = ExchangeMove(np.arange(N), Translation())
+            else:
+                kw["default_cell_move"] = CellMove(IsotropicDeformation(0.01))
+        if case["driver"] == "GrandCanonical":
+            kw["exchange_atoms"] = Atoms("Cu", positions=[[0.0, 0.0, 0.0]])
+            kw["number_of_exchange_particles"] = N
+        try:
+            mc = classes[case["driver"]](a, **kw)
+        except Exception as ex:  # noqa: BLE001
+            rep.violation(f"default-table:raise:{type(ex).__name__}", f"{case['driver']}(N={N}, defaults given: displacement={case['disp']}, second={case['second']}) raised {ex!r}", {"case": case})
+            continue
+        got = [(nm, st.interval, st.minimum_count) for nm, st in mc.moves.items()]
+        want = [(e["name"], e["interval"], e["min"]) for e in case["table"]]
+        rep.count(("default-table", case["driver"], N, case["disp"], case["second"], case["cycles_given"]), nontrivial=len(want) > 0)
+        if n % 60 == 1:
+            rep.sample({"default_table_case": {k: case[k] for k in ("driver", "n", "disp", "second", "cycles")}, "expected": case["table"]})
+        if got != want:
+            rep.violation("default-table:entries", f"{case['driver']}(N={N}) built the table {got}; DefaultTable.tla says {want} (name, interval, forced slots; in insertion order)", {"case": case, "got": got})
+            continue
+        if mc.max_cycles != case["cycles"]:
+            rep.violation("default-table:cycles", f"{case['driver']}(N={N}, max_cycles {'not given' if not case['cycles_given'] else case['cycles_given']}) runs {mc.max_cycles} trials per step; DefaultTable.tla says {case['cycles']}", {"case": case})
+        for e in case["table"]:
+            p = mc.moves[e["name"]].probability
+            w = Fraction(e["weight"][0], e["weight"][1])
+            if not (isinstance(p, (int, float)) and abs(Fraction(p) - w) <= Fraction(1, 10**15)):
+                rep.violation(f"default-table:weight:{e['name']}", f"{case['driver']}(N={N}): the weight of '{e['name']}' is {p!r}; DefaultTable.tla says {e['weight'][0]}/{e['weight'][1]}", {"case": case, "got": p})
+        try:
+            mc.close()
+        except Exception:  # noqa: BLE001
+            pass
+    return r.distinct, n
+
+
 def run(tier: str) -> int:
     rep = Report("C09", tier, "model_checking")
     rs = np.random.RandomState(rep.seed % 2**32)
@@ -265,6 +339,8 @@ def run(tier: str) -> int:
             rep.count(("freq", k, j))
             if abs(z) > 6:
                 rep.violation("frequency-not-proportional-to-weight", f"weights {weights}, cycles {cycles}: move m{j} emitted {counts[f'm{j}']} times in {tot} slots, expected {tot * p:.0f} (z = {z:.1f})", {"weights": weights, "cycles": cycles, "z": z})
+    sd, nd = default_table_layer(rep, tier)
+    rep.add(states=sd, default_tables=nd)
     rep.add(states=r.distinct, transitions=r.generated, traces_validated_against_impl=ncase + len(records), small_tables=ncase, trace_records=len(records), worst_frequency_z=round(worst, 2),
             rule="(1) every 1-2 move table over intervals {1,2}, weights {0,1,3}, minimum counts {0,1}, cycles 1..3, steps 0..2 exported by TLC with its complete allowed set: the code's emitted set must equal it (no forbidden schedule, no lost schedule); (2) run/srun/irun traces of random tables (<= 5 moves, intervals <= 7, weights incl. 0, cycles <= 12, steps up to 2 lcm) and every add_move (accepted or refused) judged record by record by TLC (Sched_Trace.tla); (3) slot frequencies against the exact probabilities, |z| <= 6; non-trivial = more than one allowed schedule / more than one name emitted")
     rep.assumptions += ["tables whose due moves all have weight zero while free slots remain are outside the property (excluded by Schedulable)"]
